@@ -158,6 +158,19 @@ void op_DECL(World& w, const Op& op)
    w.findings.count("declarations");
    w.findings.count("member_additions");
    refresh_group(w, h);
+   // a redeclaration shares the master record of its decl-set: home region, language linkage and definition
+   {
+      const Decl* first = nullptr;
+      for_group(w, h, [&](const DeclH& d) { if (!first) first = d.decl; });
+      if (first && first != decl)
+         if (auto fr = w.rec_for(static_cast<const Node*>(first))) {
+            for (const char* shared : {"home_region", "decl_linkage", "definition"})
+               if (auto v = find(fr->expect, shared))
+                  if (find(r.expect, shared)) r.exp(shared, *v);
+            if (kind == 0 || kind == 2 || kind == 3)
+               if (auto v = find(fr->expect, "home_region")) r.exp("lexical_region", *v);
+         }
+   }
    if (kind == 1) w.vars.push_back(static_cast<impl::Var*>(impl_ptr));
    if (kind >= 6) {
       w.templates.push_back(static_cast<impl::Template*>(impl_ptr));
@@ -1231,7 +1244,7 @@ void op_SUBREGION(World& w, const Op& op)
 // ----------------------------------------------------------------- harness --
 void op_LOCATE(World& w, const Op& op)
 {
-   if (w.stmts.empty()) return;
+   if (w.stmts.empty() || w.flags.fill_at_creation) return;   // stamping a location is a client assignment
    auto& h = World::pick(w.stmts, op.a);
    if (!h.src) return;
    // values whose decimal, octal and hexadecimal renderings differ (>= 8)
